@@ -699,3 +699,277 @@ Proof.
   - rewrite N.eqb_refl. reflexivity.
   - reflexivity.
 Qed.
+
+(* ------------------------------------------------------------------------- *)
+(** * 8. Page flipping and configure_if_needed on one sign *)
+
+Lemma vstep_query_own s :
+  vstep s (QueryState (v_addr s))
+  = Some (fst (v_query s), Some (ReportState (v_addr s) (v_state s))).
+Proof. unfold vstep. cbv zeta. rewrite N.eqb_refl. reflexivity. Qed.
+
+Lemma vstep_hello_own s :
+  vstep s (Hello (v_addr s))
+  = Some (fst (v_query s), Some (ReportState (v_addr s) (v_state s))).
+Proof. unfold vstep. cbv zeta. rewrite N.eqb_refl. reflexivity. Qed.
+
+Lemma v_query_addr_style s :
+  v_addr (fst (v_query s)) = v_addr s /\ v_style (fst (v_query s)) = v_style s.
+Proof. unfold v_query. cbn [fst]. destruct (v_state s); auto. Qed.
+
+(* One iteration of the switch_page loop. *)
+Lemma switch_page_step fuel a tg tr op s s1 st :
+  vstep s (QueryState a) = Some (s1, Some (ReportState a st)) ->
+  run_one (switch_page (S fuel) a tg tr op) s =
+  run_one (if state_is st ShowingPages then Ret tt
+           else if state_is st tg then Ret tt
+           else if state_is st tr then
+             expect (RequestOperation a op) (Some (AckOperation a op)) ;;;
+             switch_page fuel a tg tr op
+           else if state_is st PageLoadInProgress || state_is st PageShowInProgress then
+             switch_page fuel a tg tr op
+           else Fail) s1.
+Proof.
+  intros H. cbn [switch_page].
+  rewrite (run_one_bind_done _ _ _ _ _ (run_one_send _ _ _ _ H)).
+  cbv iota beta. rewrite N.eqb_refl. reflexivity.
+Qed.
+
+Ltac eval_state_is :=
+  repeat match goal with
+         | |- context [state_is ?x ?y] =>
+             let v := eval vm_compute in (state_is x y) in change (state_is x y) with v
+         end;
+  cbv iota; cbn [orb].
+
+(* The trigger state leads to the target state in three queries. *)
+Lemma one_switch fuel a tg tr op mid s :
+  v_addr s = a -> v_state s = tr -> (3 <= fuel)%nat ->
+  state_is tr ShowingPages = false -> state_is tr tg = false -> state_is tr tr = true ->
+  state_is mid ShowingPages = false -> state_is mid tg = false -> state_is mid tr = false ->
+  state_is mid PageLoadInProgress || state_is mid PageShowInProgress = true ->
+  state_is tg ShowingPages = false -> state_is tg tg = true ->
+  vstep s (RequestOperation a op)
+    = Some (set_state s mid, Some (AckOperation a op)) ->
+  fst (v_query s) = s ->
+  fst (v_query (set_state s mid)) = set_state s tg ->
+  fst (v_query (set_state s tg)) = set_state s tg ->
+  run_one (switch_page fuel a tg tr op) s = (set_state s tg, Done tt).
+Proof.
+  intros Ha Hst Hfuel T1 T2 T3 M1 M2 M3 M4 G1 G2 Hreq Q1 Q2 Q3.
+  destruct fuel as [|[|[|f]]]; try lia. subst a.
+  pose proof (vstep_query_own s) as S1. rewrite Q1, Hst in S1.
+  rewrite (switch_page_step _ _ _ _ _ _ _ _ S1). rewrite T1, T2, T3.
+  rewrite (run_one_bind_done _ _ _ _ _ (run_one_expect_ack _ _ _ _ Hreq)).
+  pose proof (vstep_query_own (set_state s mid)) as S2. rewrite Q2 in S2.
+  cbn [set_state v_addr v_state] in S2.
+  rewrite (switch_page_step _ _ _ _ _ _ _ _ S2). rewrite M1, M2, M3, M4.
+  pose proof (vstep_query_own (set_state s tg)) as S3. rewrite Q3 in S3.
+  cbn [set_state v_addr v_state] in S3.
+  rewrite (switch_page_step _ _ _ _ _ _ _ _ S3). rewrite G1, G2. reflexivity.
+Qed.
+
+Lemma one_show fuel a s :
+  v_addr s = a -> v_state s = PageLoaded -> (3 <= fuel)%nat ->
+  run_one (show_loaded_page fuel a) s = (set_state s PageShown, Done tt).
+Proof.
+  intros Ha Hst Hf. unfold show_loaded_page.
+  apply (one_switch fuel a PageShown PageLoaded ShowLoadedPage PageShowInProgress s Ha Hst Hf);
+    try (vm_compute; reflexivity).
+  - subst a. unfold vstep. cbv zeta. rewrite N.eqb_refl, Hst. reflexivity.
+  - unfold v_query. rewrite Hst. reflexivity.
+Qed.
+
+Lemma one_load_next fuel a s :
+  v_addr s = a -> v_state s = PageShown -> (3 <= fuel)%nat ->
+  run_one (load_next_page fuel a) s = (set_state s PageLoaded, Done tt).
+Proof.
+  intros Ha Hst Hf. unfold load_next_page.
+  apply (one_switch fuel a PageLoaded PageShown LoadNextPage PageLoadInProgress s Ha Hst Hf);
+    try (vm_compute; reflexivity).
+  - subst a. unfold vstep. cbv zeta. rewrite N.eqb_refl, Hst. reflexivity.
+  - unfold v_query. rewrite Hst. reflexivity.
+Qed.
+
+Lemma one_configure_if_needed a t s :
+  VInv0 s -> v_addr s = a ->
+  run_one (configure_if_needed a t) s =
+  if ready_state (v_state s) then (fst (v_query s), Done tt)
+  else (configured a (v_style s) t, Done tt).
+Proof.
+  intros Hinv Ha. subst a. unfold configure_if_needed.
+  rewrite (run_one_bind_done _ _ _ _ _ (run_one_send _ _ _ _ (vstep_hello_own s))).
+  cbv iota beta. rewrite N.eqb_refl. cbn [andb].
+  destruct (ready_state (v_state s)); [reflexivity|].
+  destruct (v_query_addr_style s) as [E1 E2].
+  rewrite <- E2. rewrite <- E1 at 1 2.
+  apply one_configure; [apply v_query_VInv0; exact Hinv|reflexivity].
+Qed.
+
+(* ------------------------------------------------------------------------- *)
+(** * 9. The closed loop on a bus (C08) *)
+
+Lemma dims_ok : forall t,
+  let (w, h) := dimensions t in total_bytes w h <= 65536 /\ 0 < w /\ 0 < h.
+Proof.
+  intros t. destruct t; cbn [dimensions];
+    (split; [apply N.leb_le; vm_compute; reflexivity|split; reflexivity]).
+Qed.
+
+Lemma dims_ok' t :
+  total_bytes (fst (dimensions t)) (snd (dimensions t)) <= 65536
+  /\ 0 < fst (dimensions t) /\ 0 < snd (dimensions t).
+Proof. pose proof (dims_ok t) as H. destruct (dimensions t) as [w h]. exact H. Qed.
+
+Lemma target_def b a : target b a = find (fun s => v_addr s =? a) b.
+Proof. reflexivity. Qed.
+
+Theorem closed_configure : forall b a t,
+  NoDup (map v_addr b) -> Forall VInv0 b -> In a (map v_addr b) ->
+  exists b' s',
+    run_bus (configure a t) b = (b', Done tt) /\ target b' a = Some s'
+    /\ v_state s' = ConfigReceived /\ v_type s' = Some t
+    /\ (v_w s', v_h s') = dimensions t
+    /\ v_pages s' = [] /\ v_pending s' = [] /\ v_chunks s' = 0
+    /\ v_addr s' = a /\ (forall s, target b a = Some s -> v_style s' = v_style s)
+    /\ Forall VInv0 b' /\ map v_addr b' = map v_addr b.
+Proof.
+  intros b a t Hnd Hinv Hin. destruct (target_exists b a Hin) as [s Ht].
+  destruct (target_In b a s Ht) as [_ Ha].
+  pose proof (one_configure a t s (target_VInv0 b a s Hinv Ht) Ha) as Hone.
+  destruct (lift_done a _ b s _ tt (so_configure a t) Hnd Hinv Ht Hone) as (b' & H1 & H2 & H3 & H4).
+  exists b', (configured a (v_style s) t). unfold configured at 3 4 5 6 7 8 9 10 11 12.
+  cbn [v_addr v_style v_state v_pages v_pending v_chunks v_w v_h v_type].
+  repeat (split; [first [assumption|reflexivity|symmetry; apply surjective_pairing]|]).
+  split; [|split; assumption].
+  intros s0 Hs0. congruence.
+Qed.
+
+Theorem closed_configure_if_needed : forall b a t s,
+  NoDup (map v_addr b) -> Forall VInv0 b -> target b a = Some s ->
+  ready_state (v_state s) = false \/ v_type s = Some t ->
+  exists b' s',
+    run_bus (configure_if_needed a t) b = (b', Done tt) /\ target b' a = Some s'
+    /\ v_type s' = Some t /\ (v_w s', v_h s') = dimensions t
+    /\ receive_pixels_legal (v_state s') = true
+    /\ (ready_state (v_state s) = false ->
+        v_state s' = ConfigReceived /\ v_pages s' = [] /\ v_pending s' = [] /\ v_chunks s' = 0)
+    /\ (ready_state (v_state s) = true ->
+        v_state s' = match v_state s with
+                     | PageLoadInProgress => PageLoaded
+                     | PageShowInProgress => PageShown
+                     | st => st
+                     end
+        /\ v_pages s' = v_pages s /\ v_pending s' = [] /\ v_chunks s' = 0)
+    /\ v_addr s' = a /\ v_style s' = v_style s
+    /\ Forall VInv0 b' /\ map v_addr b' = map v_addr b.
+Proof.
+  intros b a t s Hnd Hinv Ht Hor.
+  destruct (target_In b a s Ht) as [_ Ha].
+  pose proof (target_VInv0 b a s Hinv Ht) as Hs.
+  pose proof (one_configure_if_needed a t s Hs Ha) as Hone.
+  destruct (ready_state (v_state s)) eqn:Hready.
+  - destruct Hor as [Hor|Hty]; [discriminate|].
+    destruct (lift_done a _ b s _ tt (so_configure_if_needed a t) Hnd Hinv Ht Hone)
+      as (b' & H1 & H2 & H3 & H4).
+    exists b', (fst (v_query s)).
+    destruct (v_query_addr_style s) as [E1 E2].
+    assert (Hidle : v_pending s = [] /\ v_chunks s = 0).
+    { apply (VInv0_idle s Hs). destruct (v_state s); try discriminate Hready; reflexivity. }
+    pose proof (VInv0_type s t Hs Hty) as Hdim.
+    split; [exact H1|]. split; [exact H2|].
+    unfold v_query. cbn [fst].
+    destruct (v_state s) eqn:Hst; try discriminate Hready;
+      cbn [set_state v_addr v_style v_state v_pages v_pending v_chunks v_w v_h v_type];
+      rewrite ?Hst; cbn [receive_pixels_legal];
+      (repeat split; try assumption; try reflexivity; try discriminate; try apply Hidle).
+  - destruct (lift_done a _ b s _ tt (so_configure_if_needed a t) Hnd Hinv Ht Hone)
+      as (b' & H1 & H2 & H3 & H4).
+    exists b', (configured a (v_style s) t).
+    split; [exact H1|]. split; [exact H2|].
+    unfold configured.
+    cbn [v_addr v_style v_state v_pages v_pending v_chunks v_w v_h v_type receive_pixels_legal].
+    repeat split; try assumption; try reflexivity; try discriminate.
+    symmetry; apply surjective_pairing.
+Qed.
+
+Theorem closed_send_pages : forall b a ps s,
+  NoDup (map v_addr b) -> Forall VInv0 b -> target b a = Some s ->
+  receive_pixels_legal (v_state s) = true -> 0 < v_w s -> 0 < v_h s ->
+  Forall (fun p => p_w p = v_w s /\ p_h p = v_h s
+                   /\ nlen (p_bytes p) = total_bytes (v_w s) (v_h s)) ps ->
+  total_bytes (v_w s) (v_h s) <= 65536 ->
+  N.of_nat (length ps) * (total_bytes (v_w s) (v_h s) / 16) < 65536 ->
+  exists b' s',
+    run_bus (send_pages a ps) b = (b', Done (v_style s)) /\ target b' a = Some s'
+    /\ v_pages s' = ps
+    /\ v_state s' = match v_style s with Manual => PageLoaded | Automatic => ShowingPages end
+    /\ v_type s' = v_type s /\ (v_w s', v_h s') = (v_w s, v_h s)
+    /\ v_pending s' = [] /\ v_chunks s' = 0
+    /\ v_addr s' = a /\ v_style s' = v_style s
+    /\ Forall VInv0 b' /\ map v_addr b' = map v_addr b.
+Proof.
+  intros b a ps s Hnd Hinv Ht Hlegal Hw Hh Hps HT Hcnt.
+  destruct (target_In b a s Ht) as [_ Ha].
+  pose proof (one_send_pages a ps s (target_VInv0 b a s Hinv Ht) Ha Hlegal Hw Hh Hps HT Hcnt)
+    as Hone.
+  destruct (lift_done a _ b s _ _ (so_send_pages a ps) Hnd Hinv Ht Hone)
+    as (b' & H1 & H2 & H3 & H4).
+  exists b', (loaded s ps). split; [exact H1|]. split; [exact H2|].
+  unfold loaded. cbn [v_addr v_style v_state v_pages v_pending v_chunks v_w v_h v_type].
+  repeat split; try assumption; try reflexivity.
+  destruct (v_style s); reflexivity.
+Qed.
+
+Theorem closed_show : forall b a s fuel,
+  NoDup (map v_addr b) -> Forall VInv0 b -> target b a = Some s ->
+  v_state s = PageLoaded -> (3 <= fuel)%nat ->
+  exists b',
+    run_bus (show_loaded_page fuel a) b = (b', Done tt)
+    /\ target b' a = Some (set_state s PageShown)
+    /\ Forall VInv0 b' /\ map v_addr b' = map v_addr b.
+Proof.
+  intros b a s fuel Hnd Hinv Ht Hst Hf. destruct (target_In b a s Ht) as [_ Ha].
+  exact (lift_done a _ b s _ tt (so_switch_page a _ _ _ fuel) Hnd Hinv Ht
+           (one_show fuel a s Ha Hst Hf)).
+Qed.
+
+Theorem closed_load_next : forall b a s fuel,
+  NoDup (map v_addr b) -> Forall VInv0 b -> target b a = Some s ->
+  v_state s = PageShown -> (3 <= fuel)%nat ->
+  exists b',
+    run_bus (load_next_page fuel a) b = (b', Done tt)
+    /\ target b' a = Some (set_state s PageLoaded)
+    /\ Forall VInv0 b' /\ map v_addr b' = map v_addr b.
+Proof.
+  intros b a s fuel Hnd Hinv Ht Hst Hf. destruct (target_In b a s Ht) as [_ Ha].
+  exact (lift_done a _ b s _ tt (so_switch_page a _ _ _ fuel) Hnd Hinv Ht
+           (one_load_next fuel a s Ha Hst Hf)).
+Qed.
+
+(* A sign that flips pages by itself: both operations are a single query, nothing changes. *)
+Lemma bus_switch_noop b a s fuel tg tr op :
+  NoDup (map v_addr b) -> target b a = Some s -> v_state s = ShowingPages ->
+  (1 <= fuel)%nat ->
+  run_bus (switch_page fuel a tg tr op) b = (b, Done tt).
+Proof.
+  intros Hnd Ht Hst Hf. destruct fuel as [|f]; [lia|].
+  destruct (target_split b a s Ht) as (b1 & b2 & Eb & Ha).
+  assert (Hq : vstep s (QueryState a) = Some (s, Some (ReportState a ShowingPages))).
+  { subst a. rewrite vstep_query_own. unfold v_query. rewrite Hst. reflexivity. }
+  pose proof (bus_addressed b (QueryState a) a Hnd eq_refl b1 s b2 Eb Ha _ _ Hq) as Hbs.
+  rewrite <- Eb in Hbs.
+  cbn [switch_page bind send run_bus]. rewrite Hbs. cbv iota beta.
+  rewrite N.eqb_refl. change (state_is ShowingPages ShowingPages) with true. reflexivity.
+Qed.
+
+Theorem closed_auto_noop : forall b a s fuel,
+  NoDup (map v_addr b) -> target b a = Some s -> v_state s = ShowingPages ->
+  (1 <= fuel)%nat ->
+  run_bus (show_loaded_page fuel a) b = (b, Done tt)
+  /\ run_bus (load_next_page fuel a) b = (b, Done tt).
+Proof.
+  intros b a s fuel Hnd Ht Hst Hf.
+  split; [unfold show_loaded_page|unfold load_next_page];
+    apply (bus_switch_noop b a s fuel _ _ _ Hnd Ht Hst Hf).
+Qed.
